@@ -10,7 +10,7 @@ import protocol
 
 def build(tier):
     return {
-        'targets': common.targets(['NV_C02']) + statefns.targets() + nonls.targets() + protocol.targets(['NV_C02']), 'vcs': [],
+        'targets': common.targets(['NV_C02']) + statefns.targets() + nonls.targets() + [t for t in protocol.targets(['NV_C02']) if t.name != 'csearch_search'],   # csearch_t::search itself: ./check C03 'vcs': [],
         'decided': ['solver_t::done decision protocol; lsearch_t::get; do_minimize of gd / cgd-* / lbfgs / bfgs,dfp,sr1,hoshino,fletcher (17 solvers share these four bodies): status in {converged, max_iters, failed}; unless failed the returned state is valid (finite value and point); the reported (x, f, g) is one consistent evaluation; reported evaluation counts <= evaluations performed; the budget loop terminates and overshoots max_evals by at most one line search (<= 4*max_iterations evaluations, C07)',
                     'contract refinement lemma: the C07 contract of lsearchk_t::get implies the contract the solvers rely on'],
         'not_decided': ['f <= f0 for line-search solvers (Armijo arithmetic)', 'the numeric overshoot bound 1100+8n', 'the other solver bodies (ellipsoid, sgm, cocob, osga, universal, asga, pdsgm, gsample, rqb, fpba, penalty, augmented): see DESIGN'],
